@@ -15,7 +15,8 @@ from . import matryoshka_gen as g
 from .common import Ctx, python_flags
 
 RULE = ("scripts of 4-25 operations (propose/replace, bounds update, expiry, status, adjust) on one Matryoshka; "
-        "values from a lattice of anchors ± {0,1/2,1}; non-trivial = script contains >=2 live proposals with at "
+        "values from a lattice of anchors ± {0,1/2,1}; every 6th script mixes in tiny non-zero magnitudes (±2^-40, "
+        "±2^-54 = 0.1+0.2-0.3, ±2^-60, smallest subnormal, the doubles at/around 1e-9) for preferences, bounds, probes; non-trivial = script contains >=2 live proposals with at "
         "least one bound or an exclusion zone cutting the bounds; distinct by canonical JSON hash")
 
 
@@ -73,6 +74,9 @@ def check_script(ctx: Ctx, script: dict, shuffles: int) -> dict:
                 tags.add("bounded-proposals")
     if any(op["op"] == "drop" for op in ops):
         tags.add("expiry")
+    if any(op["op"] == "calc" and op["p"] is not None and op["p"]["pref"] is not None
+           and 0 < abs(Fraction(op["p"]["pref"])) < Fraction(1, 10 ** 6) for op in ops):
+        tags.add("tiny-preference")
     if last_sb and last_sb["excl"] not in (None, ["0", "0"]):
         tags.add("excl-zone")
     if last_sb and last_sb["incl"] is None:
@@ -92,7 +96,7 @@ def run(ctx: Ctx) -> None:
         impl_outs.append(check_script(ctx, corpus_case, shuffles=6))
     for i in range(n):
         rng = ctx.subrng("script", i)
-        script = g.gen_script(rng, rng.randint(4, 25), in_domain=rng.random() < 0.9)
+        script = g.gen_script(rng, rng.randint(4, 25), in_domain=rng.random() < 0.9, tiny_values=i % 6 == 5)
         scripts.append(script)
         impl_outs.append(check_script(ctx, script, shuffles=3 if ctx.tier == "quick" else 8))
     ctx.compare("Matryoshka", scripts, impl_outs, what="Matryoshka script outputs")
